@@ -159,6 +159,92 @@ def owHist : OWObj → List String → List String → List String
     | some (.error e) => (s!"E:{e}" :: acc).reverse
     | some (.ok (s', out)) => owHist s' rest (out :: acc)
 
+/-! histories on one LighthouseMemHelper: `lh_hist <size> <defs> <steps>`; defs `G0=<geos>|C0=<calibs>` name the caller's dict
+objects, steps (`;`-separated): `wg:<name>:<acks>` `wc:<name>:<acks>` `rg:<fails>` `rc:<fails>` `h:<size>` (another helper and memory) -/
+
+def showObjEntry (p : Nat × LhObj) : String :=
+  match p.2 with
+  | .geo g => s!"{p.1}/{showGeo g}"
+  | .calib c => s!"{p.1}/{showCalib c}"
+
+def showObjDict (d : Dict LhObj) : String := if d.isEmpty then "-" else ",".intercalate (d.map showObjEntry)
+
+def memSig (m : Mem) : String := s!"{m.length}:{crc32 m}"
+
+structure HelperSt where
+  gw : LhW
+  cw : LhW
+  gr : LhR
+  cr : LhR
+  mem : Mem
+  env : List (String × Dict LhObj)
+
+def parseAcks (s : String) : List Bool := if s == "-" then [] else s.toList.map (· == '1')
+
+def parseDefs? (s : String) : Option (List (String × Dict LhObj)) :=
+  if s == "-" then some [] else
+  (s.splitOn "|").mapM fun w =>
+    match w.splitOn "=" with
+    | [n, v] =>
+      if n.startsWith "G" then (parseGeos? v).map fun l => (n, l.map fun (b, g) => (b, LhObj.geo g))
+      else (parseCalibs? v).map fun l => (n, l.map fun (b, c) => (b, LhObj.calib c))
+    | _ => none
+
+def envSet (env : List (String × Dict LhObj)) (n : String) (d : Dict LhObj) : List (String × Dict LhObj) :=
+  env.map fun (k, v) => if k == n then (k, d) else (k, v)
+
+def helperHist : HelperSt → List String → List String → List String
+  | _, [], acc => acc.reverse
+  | st, step :: rest, acc =>
+    let r : Option (Except PyErr (HelperSt × String)) :=
+      match step.splitOn ":" with
+      | [w, n, a] =>
+        if w == "wg" || w == "wc" then
+          (st.env.lookup n).map fun d =>
+            let k := if w == "wg" then LhKind.geo else LhKind.calib
+            let ws := if w == "wg" then st.gw else st.cw
+            (lhRunWrite k ws d st.mem (parseAcks a)).map fun (ws', m', ok) =>
+              let st' := if w == "wg" then { st with gw := ws', mem := m', env := envSet st.env n ws'.caller }
+                         else { st with cw := ws', mem := m', env := envSet st.env n ws'.caller }
+              (st', s!"W={match ok with | some true => "1" | some false => "0" | none => "?"}|d={showObjDict ws'.caller}|m={memSig m'}")
+        else none
+      | [w, f] =>
+        if w == "rg" || w == "rc" then
+          (parseDots? f).map fun fails =>
+            let k := if w == "rg" then LhKind.geo else LhKind.calib
+            let rs := if w == "rg" then st.gr else st.cr
+            (lhRunRead k rs st.mem fails).map fun (rs', res) =>
+              let st' := if w == "rg" then { st with gr := rs' } else { st with cr := rs' }
+              (st', s!"R={match res with | some r => showObjDict r | none => "?"}")
+        else if w == "h" then
+          f.toNat?.map fun size =>
+            .ok ({ st with gw := LhW.fresh, cw := LhW.fresh, gr := LhR.fresh, cr := LhR.fresh, mem := List.replicate size 0 }, "H")
+        else none
+      | _ => none
+    match r with
+    | none => ["bad-op"]
+    | some (.error e) => (s!"E:{e}" :: acc).reverse
+    | some (.ok (st', out)) => helperHist st' rest (out :: acc)
+
+def emptyGeo : LhObj := .geo ⟨⟨0, 0, 0⟩, ⟨0, 0, 0⟩, ⟨0, 0, 0⟩, ⟨0, 0, 0⟩, false⟩
+def emptyCalib : LhObj := .calib ⟨⟨0, 0, 0, 0, 0, 0, 0⟩, ⟨0, 0, 0, 0, 0, 0, 0⟩, 0, false⟩
+
+/-- `LighthouseConfigWriter.write_and_store_config(geos, calibs)` on a zeroed memory -/
+def cfgWriter (size : Nat) (g c : Option (Dict LhObj)) : Except PyErr String := do
+  let m0 : Mem := List.replicate size 0
+  let (m1, ok1) ← match g with
+    | none => pure (m0, true)
+    | some d => do
+      let (_, m', ok) ← lhRunWrite .geo LhW.fresh (lhPrepare d emptyGeo 16) m0 []
+      pure (m', ok == some true)
+  let (m2, ok2) ← match c with
+    | none => pure (m1, true)
+    | some d => do
+      let (_, m', ok) ← lhRunWrite .calib LhW.fresh (lhPrepare d emptyCalib 16) m1 []
+      pure (m', ok == some true)
+  let sd (x : Option (Dict LhObj)) : String := match x with | none => "none" | some d => showObjDict d
+  pure s!"S={b01 (ok1 && ok2)}|g={sd g}|c={sd c}|m={memSig m2}|p={if g.isSome then 16 else 0}.{if c.isSome then 16 else 0}"
+
 /-! YAML values on the wire: n | t | f | i<int>; | d<bits>; | s<hex>; | L<n>;<items> | D<n>;<key><value>... -/
 
 def takeUntilSemi (cs : List Char) : Option (String × List Char) :=
@@ -338,6 +424,19 @@ def step (_ : Unit) (ws : List String) : Unit × String :=
       match parseTimings? ts with
       | some ts => showExcept toHex (ledImage ts)
       | none => "bad-op"
+    | ["lh_hist", size, defs, steps] =>
+      match size.toNat?, parseDefs? defs with
+      | some size, some env =>
+        "ok " ++ ";".intercalate (helperHist ⟨LhW.fresh, LhW.fresh, LhR.fresh, LhR.fresh, List.replicate size 0, env⟩ (steps.splitOn ";") [])
+      | _, _ => "bad-op"
+    | ["lh_cfgw", size, gs, cs] =>
+      let pg : Option (Option (Dict LhObj)) := if gs == "none" then some none else
+        (parseGeos? gs).map fun l => some (l.map fun (b, g) => (b, LhObj.geo g))
+      let pc : Option (Option (Dict LhObj)) := if cs == "none" then some none else
+        (parseCalibs? cs).map fun l => some (l.map fun (b, c) => (b, LhObj.calib c))
+      match size.toNat?, pg, pc with
+      | some size, some g, some c => showExcept id (cfgWriter size g c)
+      | _, _, _ => "bad-op"
     | ["i2c_hist", steps] => "ok " ++ ";".intercalate (i2cHist I2CObj.fresh (steps.splitOn ",") [])
     | ["ow_hist", steps] => "ok " ++ ";".intercalate (owHist OWObj.fresh (steps.splitOn ",") [])
     | ["yaml_canon", v] =>
